@@ -76,6 +76,8 @@ def make_tpp(ctx, path, notified, with_timer=True, to_delete=1):
     H[('f', o, 'config')] = NONE
     # the control connection may or may not exist yet
     has_proto = z3.Bool('control_connection_exists')
+    ctx.input('control_connection_exists', VBool(has_proto))
+    ctx.input('attempted0', VBool(z3.Bool('attempted0')))
     H[('f', o, 'tor_protocol')] = VUnion([(has_proto, VOpaque('proto', 7902)), (z3.Not(has_proto), NONE)])
     H[('f', o, 'attempted_connect')] = VBool(z3.Bool('attempted0'))
     H[('f', o, 'connection_creator')] = VOpaque('connection_creator', 7100)
@@ -321,7 +323,9 @@ twin, _replay_twin = adopt_twin('twin.tC19', FINDING_PATTERNS)
 
 
 def replay(unit, name, model):
-    return {'reproduced': False, 'what': 'no native replay for proof counterexamples of this unit'}
+    """native replay of a solver model on the real classes (props/replay_misc.py)"""
+    from props import replay_misc
+    return replay_misc.replay(unit, name, model)
 
 
 def replay_file(doc):
